@@ -91,8 +91,21 @@ Definition run_agree (c : c03_case) (r : c03_run) : bool :=
 Definition run_holds (c : c03_case) (r : c03_run) : bool :=
   spec_holds (case_rcfg c) (ca_init c) (ca_progs c) (ru_out r).
 
+(* well-formedness of a case, as the harness generates them: max_size >= 1, the dict literals of
+   `c == {...}` have distinct keys, key tokens are below 100 (the probe's fresh keys are 100, 101 ...).
+   Part of `agree`: Props.C03_agree_implies_holds applies to exactly the cases that pass it. *)
+Fixpoint nodupb (l : list nat) : bool :=
+  match l with [] => true | x :: r => negb (existsb (Nat.eqb x) r) && nodupb r end.
+Definition wf_opb (o : op) : bool := match o with EqDict l => nodupb (map fst l) | _ => true end.
+Definition small_opb (o : op) : bool := forallb (fun k => Nat.ltb k 100) (op_keys o).
+Definition wf_caseb (c : c03_case) : bool :=
+  Nat.leb 1 (ca_max c)
+  && forallb (forallb wf_opb) (ca_progs c)
+  && forallb (forallb small_opb) (ca_progs c)
+  && forallb (fun p => Nat.ltb (fst p) 100) (ca_init c).
+
 Definition c03_verdict (c : c03_case) : verdict :=
-  (forallb (run_agree c) (ca_runs c), forallb (run_holds c) (ca_runs c), false).
+  (wf_caseb c && forallb (run_agree c) (ca_runs c), forallb (run_holds c) (ca_runs c), false).
 
 (* for replay files: per run (agree, holds, the interleaving the reference accepts, what the
    model computes in the observed lock order) *)
